@@ -535,7 +535,9 @@ def check_case(case, rec):
                 obj2, _ = fresh()
                 again = observe(obj2, cls, cfg)
                 if (again[0], ADDR.sub("0x", str(again[1]))) != (status, ADDR.sub("0x", str(text))):
-                    raise RuntimeError(f"nondeterministic observation for {one!r}: {status, text!r} then {again!r}")
+                    # depends on what ran before in this process (hidden state) or is nondeterministic:
+                    # the harness re-executes every reported violation (case, then whole shard in a fresh process) and decides
+                    rec.count("diverged_on_immediate_reexecution")
             for clause, detail in problems:
                 rec.violation(op, clause, one, detail if clause == "raised" else f"{detail}\n--- rendering ---\n{text}")
             rec.outcome((op, "violation", tuple(c for c, _ in problems)))
